@@ -32,8 +32,8 @@ def make_scene(rng):
                 s.new_cid_at = -1
             if not s.c_scid_len:
                 s.client_new_cid_at = -1
-            s.c_scid_len = max(s.c_scid_len, 2) if s.client_new_cid_at >= 0 else s.c_scid_len
-            s.s_scid_len = max(s.s_scid_len, 2) if s.new_cid_at >= 0 else s.s_scid_len
+            s.c_scid_len = rng.choice([4, 5, 8, 12]) if s.client_new_cid_at >= 0 else s.c_scid_len
+            s.s_scid_len = rng.choice([4, 5, 8, 12]) if s.new_cid_at >= 0 else s.s_scid_len
             s.new_cid_prefix = rng.choice(["extend", "extend", "truncate", ""])
             qc = quicsynth.build_qconn(s, rng)
             fl = scene.quic_flow(qc, ep)
